@@ -63,8 +63,10 @@ fn seg_strategy(ns: usize, nn: usize) -> BoxedStrategy<SegAbs> {
 }
 
 pub fn doc_strategy(tier: Tier, allow_hermes: bool) -> BoxedStrategy<DocModel> {
-    let max_lines = tier.pick(8usize, 40);
-    let max_segs = tier.pick(10usize, 60);
+    doc_strategy_sized(allow_hermes, tier.pick(8usize, 40), tier.pick(10usize, 60))
+}
+
+pub fn doc_strategy_sized(allow_hermes: bool, max_lines: usize, max_segs: usize) -> BoxedStrategy<DocModel> {
     (
         prop_oneof![1 => Just(None), 8 => vec(prop_oneof![1 => Just(None), 6 => pool_string(SRC_POOL).prop_map(Some)], 0..5).prop_map(Some)],
         prop_oneof![1 => Just(None), 8 => vec(prop_oneof![5 => pool_string(NAME_POOL).prop_map(DName::Str), 1 => (-3i64..100_000).prop_map(DName::Int)], 0..5).prop_map(Some)],
@@ -469,6 +471,7 @@ fn check(case: &Case, obs: &mut Obs) -> Verdict {
 
 fn subs() -> Vec<Sub> {
     vec![
+        gen_sub("long_lines", |t| doc_strategy_sized(false, 3, t.pick(1200, 4000)).prop_map(Case::Doc).boxed(), |t| t.pick(200, 4_000), check),
         gen_sub("documents", |t| doc_strategy(t, true).prop_map(Case::Doc).boxed(), |t| t.pick(40_000, 800_000), check),
         gen_sub("index_documents", |t| index_doc_strategy(t).prop_map(Case::Index).boxed(), |t| t.pick(6_000, 120_000), check),
     ]
@@ -476,7 +479,7 @@ fn subs() -> Vec<Sub> {
 
 pub const DEF: PropertyDef = PropertyDef {
     id: "C02",
-    rule: "documents: abstract documents (lines of Empty/1/4/5-field segments in absolute values, optional keys absent/null/present \
+    rule: "long_lines: up to 3 lines of up to 1200 (4000) segments. documents: abstract documents (lines of Empty/1/4/5-field segments in absolute values, optional keys absent/null/present \
            in generated order, optional junk header, optional x_facebook_sources) written by the independent encoder; expected map \
            computed from the model. Non-trivial = >= 2 non-empty lines, a negative delta in each of the five fields, a 1-field and a \
            5-field segment. index_documents: sections written in shuffled order; non-trivial = >= 2 sections out of order, two with >= 2 tokens",
